@@ -234,6 +234,9 @@ func execFmtBinary(id string, s *ev.Shard, b *sandbox.Box, c FmtCase) *rp.Fail {
 		if err2 != nil {
 			return nil
 		}
+		if c.History == "restore" {
+			break // the second run comes after the restore, see fmtHistory
+		}
 		r2 := b.Run(cwd, nil, runTimeout, fmtArgs...)
 		data2, _ := os.ReadFile(path)
 		if r2.Exit != 0 || string(data2) != f1 {
